@@ -297,3 +297,10 @@ func (c *Ctx) Finish(hook []int64) {
 	c.write(&Line{T: "F", I: -1, Counts: m})
 	c.mu.Unlock()
 }
+
+// Next tells the driver that the shard continues at case idx in a new process.
+func (c *Ctx) Next(idx int) {
+	c.mu.Lock()
+	c.write(&Line{T: "N", I: idx})
+	c.mu.Unlock()
+}
